@@ -29,7 +29,7 @@ TRUSTED = ["modelled not verified: rand's uniform u128 sampler (Canon's method) 
            "hook Backoff::verif_shift_clock moves last_reset_at back by d: equivalent to d passing for `elapsed()`"]
 RULE = ("quick: ~370 cases: default configuration with random seeds and operation sequences (length <= 60; increments dominate; time advances "
         "0..250 s; deadline-relative advances at -60 s..-1 s and 0..+60 s; resets), custom configurations (deterministic step and interval, "
-        "initial = max, initial > 0, tiny and huge ranges, zero reset interval), construction panics; thorough: ~3000 cases, length <= 300. "
+        "initial = max, initial > 0, tiny and huge ranges, zero reset interval), construction panics; thorough: ~2400 cases, length <= 300. "
         "non-trivial = at least 3 increments and (the maximum is reached or a reset by elapsed interval happens)")
 
 DEFAULT = [0, 1000, 5000, 30000, 60000, 180000]
@@ -111,7 +111,7 @@ def _custom(rng):
 
 
 def gen(tier, rng):
-    n = 360 if tier == "quick" else 3000
+    n = 360 if tier == "quick" else 2400
     lmax = 60 if tier == "quick" else 300
     for i in range(n):
         seed = [rng.randrange(256) for _ in range(32)]
